@@ -243,6 +243,7 @@ out:
 		endtime = calcEndtime(startTime, blackMillisLeft, blackMillisIncrement, whiteMillisLeft, whiteMillisIncrement,
 			fullMovesToGo)
 	}
+	verifDeadline(startTime, endtime, targetDepth)
 	go search.StartIterativeDeepening(startTime, endtime, targetDepth)
 }
 
